@@ -77,8 +77,8 @@ enum AnyTrack {
 	Send(#[allow(dead_code)] SendTrackHandle),
 }
 
-const OP_NAMES: [&str; 9] = ["add_sub_track(fx)", "add_sub_track(group)", "handle.add_sub_track(fx)", "add_spatial_sub_track(fx)", "add_send_track(fx)", "change_sample_rate", "callback", "handle.add_sub_track(group)", "handle.add_spatial_sub_track(fx)"];
-const N_OPS: u64 = 9;
+const OP_NAMES: [&str; 10] = ["add_sub_track(fx)", "add_sub_track(group)", "handle.add_sub_track(fx)", "add_spatial_sub_track(fx)", "add_send_track(fx)", "change_sample_rate", "callback", "handle.add_sub_track(group)", "handle.add_spatial_sub_track(fx)", "add_sub_track(delay with fx in its feedback loop)"];
+const N_OPS: u64 = 10;
 
 struct Hist {
 	rig: Rig,
@@ -158,6 +158,13 @@ impl Hist {
 			6 => {
 				self.rig.callback(cb_frames);
 			}
+			9 => {
+				// an effect inside another effect: the delay must hand init / rate changes on to its feedback effects
+				let b = TrackBuilder::new().with_effect(DelayBuilder::new().delay_time(Duration::from_millis(5)).with_feedback_effect(self.probe("in-delay-feedback")));
+				if let Ok(t) = self.rig.mgr.add_sub_track(b) {
+					self.tracks.push(AnyTrack::Plain(t));
+				}
+			}
 			_ => {
 				let b = SpatialTrackBuilder::new().with_effect(self.probe("nested-spatial"));
 				let id = self.listener.id();
@@ -226,7 +233,7 @@ fn is_add_change_pickup(ops: &[(u64, usize, usize)]) -> bool {
 	let mut pending_add = false;
 	for (o, _, _) in ops {
 		match o {
-			0 | 2 | 3 | 4 | 8 => pending_add = true,
+			0 | 2 | 3 | 4 | 8 | 9 => pending_add = true,
 			6 => pending_add = false,
 			5 if pending_add => return true,
 			_ => {}
@@ -652,7 +659,8 @@ fn s_delay(r: &mut Rng, c: &Cell) -> Result<(), String> {
 	if std::env::var("KVH_DEBUG").is_ok() {
 		eprintln!("t_end {} out: {:?}", tl.t, tl.out.iter().filter(|x| x.1 != 0.0).map(|x| (format!("{:.6}", x.0), x.1)).collect::<Vec<_>>());
 	}
-	let frames = (td * r2 as f64).floor() / r2 as f64;
+	// kira keeps the delay time as a Duration (whole nanoseconds) and uses floor(delay x rate) frames
+	let frames = (Duration::from_secs_f64(td).as_secs_f64() * r2 as f64).floor() / r2 as f64;
 	let tol = 3.0 / r2 as f64;
 	// the wet signal is the delay line scaled by the feedback (-1 dB): the burst recurs every `frames` seconds
 	let horizon = (tl.t - 0.001).min(4.5 * frames) - 2.0 * tol; // 4 recurrences stay above the detection level
